@@ -39,6 +39,13 @@ impl PersistentVectorStorage {
     }
 }
 
+impl PersistentVectorStorage {
+    /// Current root page of the backing tree (it moves when the root splits).
+    pub fn root(&self) -> crate::pager::PageId {
+        self.btree.root()
+    }
+}
+
 impl VectorStorage<Pager> for PersistentVectorStorage {
     fn insert_vector(&mut self, pager: &mut Pager, id: u32, vector: &[f32]) -> Result<()> {
         let key = encode_vector_key(id);
@@ -138,6 +145,13 @@ pub struct PersistentGraphStorage {
 impl PersistentGraphStorage {
     pub fn new(btree: BTree) -> Self {
         Self { btree }
+    }
+}
+
+impl PersistentGraphStorage {
+    /// Current root page of the backing tree (it moves when the root splits).
+    pub fn root(&self) -> crate::pager::PageId {
+        self.btree.root()
     }
 }
 
